@@ -68,6 +68,7 @@ type scenario struct {
 	BackendALPN   []string
 	ServerName    string
 	Resume        bool
+	ResumeBurst   int // further resumed connections on the same session cache (each resumed hello carries a fresh PSK binder: bytes that no generator chooses)
 	ClientCert    int // 0 none, else pad bytes
 	BackendChain  int // pad bytes of the backend certificate
 	NKeys         int
@@ -180,6 +181,7 @@ func covering() []scenario {
 		add(func(s *scenario) { s.Stale, s.ClientCurves, s.BackendCurves = st, "x-then-p256", "p256" })
 	}
 	add(func(s *scenario) { s.Resume = true })
+	add(func(s *scenario) { s.Resume, s.ResumeBurst = true, resumeBurst })
 	add(func(s *scenario) { s.Resume, s.ClientCurves = true, "mlkem" })
 	for _, sz := range []int{1, 16384, 16385, 100000} {
 		add(func(s *scenario) { s.Up, s.Down = sz, sz })
@@ -221,6 +223,9 @@ type fixtures struct {
 }
 
 // run executes one scenario and judges it.
+// resumeBurst: set by TestCheck from the tier.
+var resumeBurst = 1200
+
 func run(r *mon.Run, work string, idx int, rng *mrand.Rand, fx *fixtures, s scenario) {
 	c := map[string]any{"scenario": s}
 	// keys held by the client-facing server
@@ -300,7 +305,7 @@ func run(r *mon.Run, work string, idx int, rng *mrand.Rand, fx *fixtures, s scen
 	}
 	rounds := 1
 	if s.Resume {
-		rounds = 2
+		rounds = 2 + s.ResumeBurst
 	}
 	for round := 0; round < rounds; round++ {
 		ok := false
@@ -587,7 +592,7 @@ func oneConnection(r *mon.Run, work string, idx int, rng *mrand.Rand, fx *fixtur
 	if sawHRR {
 		r.Count("completed_with_hrr", 1)
 	}
-	if round == 1 {
+	if round >= 1 {
 		if cs.DidResume && res.state.DidResume {
 			r.Count("completed_resumed", 1)
 			if sawHRR {
@@ -649,6 +654,10 @@ func TestCheck(t *testing.T) {
 		return
 	}
 	fx := &fixtures{ca: ca}
+	resumeBurst = r.N(1200, 12000)
+	if os.Getenv("VERIF_C01_PART") != "" {
+		resumeBurst = r.N(300, 2000) // the second release and the race stage repeat a part of it
+	}
 	base := covering()
 	n := r.N(600, 40000)
 	if os.Getenv("VERIF_C01_PART") == "second" {
@@ -720,7 +729,7 @@ func TestCheck(t *testing.T) {
 	})
 	r.Floor("completed", int64(n/2))
 	r.Floor("completed_with_hrr", 3)
-	r.Floor("completed_resumed", 3)
+	r.Floor("completed_resumed", 3+int64(resumeBurst)*9/10)
 	r.Floor("completed_resumed_with_hrr", 1)
 	r.Floor("stale_rejections_with_retry_configs", 5)
 	r.Floor("completed_with_record_over_16384", 3)
